@@ -360,11 +360,23 @@ pub fn run(sut: &dyn Sut, tier: Tier) -> ! {
         let c = case_from_choices(&mut ch);
         judge(sut, &c, st)
     };
-    if let Some(f) = run_inprocess(seed, cases, (8, 64), &mut stats, &mut j) {
+    let mut found = run_inprocess(seed, cases, (8, 64), &mut stats, &mut j);
+    if found.is_none() && tier == Tier::Thorough {
+        // coverage-guided search over the same choice sequences (libFuzzer, oracle in the target)
+        found = fuzz_choices(&run, &mut stats, (8, 64), 300, 12, 50_000, &mut j);
+    }
+    if let Some(f) = found {
         let mut ch = Ch::new(&f.choices);
         let c = case_from_choices(&mut ch);
         run.violation(case_json(&c, Some(&f.choices)), &f.message);
     }
     stats.check_health("C11");
     run.finish(&stats)
+}
+
+/// judge of the random part as a function of the choice sequence (used by the coverage-guided target)
+pub fn judge_choices(sut: &dyn Sut, choices: &[u32], stats: &mut Stats) -> Result<(), String> {
+    let mut ch = Ch::new(choices);
+    let c = case_from_choices(&mut ch);
+    judge(sut, &c, stats)
 }
